@@ -33,7 +33,7 @@ EXHAUSTIVE = {'quick': False, 'thorough': False}   # the sweep is exhaustive, th
 
 
 def budget(tier):
-    return 12000 if tier == 'quick' else 110000
+    return 12000 if tier == 'quick' else 300000
 
 
 @st.composite
